@@ -1019,7 +1019,7 @@ namespace mustache {
         const auto mask = skip_mask.merge(prev_arch->mask_).intersection(to_remove.inverse());
         shared = shared.merge(prev_arch->sharedComponentInfo());
         auto& archetype = getArchetype(mask, shared);
-        archetype.externalMove(entity, *prev_arch, prev_location.index, ComponentIdMask::null());
+        archetype.externalMove(entity, *prev_arch, prev_location.index, skip_mask);
         const auto index = locations_[entity.id()].index;
         if constexpr(sizeof...(_I) > 0) {
             auto unused_init_list = {initComponent(archetype, index, std::get<_I>(tuple))...};
